@@ -1484,6 +1484,73 @@ enum LoadOutcome {
     Crash(String),
 }
 
+/// Like `gv::child::run(&["--child", "load"], …)` but with an address-space limit (a corrupted
+/// count can ask for tens of GB: that must kill the child, not the machine) and with the readers
+/// started before stdin is written.
+fn spawn_child(input: &[u8], timeout: Duration) -> gv::child::Exit {
+    use gv::child::Exit;
+    use std::io::Read;
+    use std::process::{Command, Stdio};
+    let exe = std::env::current_exe().unwrap();
+    let mut ch = Command::new("sh")
+        .arg("-c")
+        .arg("ulimit -v 6291456; exec \"$0\" --child load")
+        .arg(exe)
+        .stdin(Stdio::piped())
+        .stdout(Stdio::piped())
+        .stderr(Stdio::piped())
+        .spawn()
+        .expect("spawn child");
+    let mut si = ch.stdin.take().unwrap();
+    let mut so = ch.stdout.take().unwrap();
+    let mut se = ch.stderr.take().unwrap();
+    let inp = input.to_vec();
+    let t_in = std::thread::spawn(move || {
+        let _ = si.write_all(&inp);
+    });
+    let t_out = std::thread::spawn(move || {
+        let mut s = Vec::new();
+        let _ = so.read_to_end(&mut s);
+        String::from_utf8_lossy(&s).into_owned()
+    });
+    let t_err = std::thread::spawn(move || {
+        let mut s = Vec::new();
+        let _ = se.read_to_end(&mut s);
+        let s = String::from_utf8_lossy(&s).into_owned();
+        s.chars().take(400).collect::<String>()
+    });
+    let start = std::time::Instant::now();
+    loop {
+        match ch.try_wait().unwrap() {
+            Some(st) => {
+                let _ = t_in.join();
+                let out = t_out.join().unwrap();
+                let err = t_err.join().unwrap();
+                use std::os::unix::process::ExitStatusExt;
+                if let Some(sig) = st.signal() {
+                    return Exit::Signal(sig, out, err);
+                }
+                return match st.code() {
+                    Some(0) => Exit::Ok(out),
+                    Some(c) => Exit::Code(c, out, err),
+                    None => Exit::Signal(-1, out, err),
+                };
+            }
+            None => {
+                if start.elapsed() > timeout {
+                    let _ = ch.kill();
+                    let _ = ch.wait();
+                    let _ = t_in.join();
+                    let out = t_out.join().unwrap();
+                    let _ = t_err.join();
+                    return Exit::Timeout(out);
+                }
+                std::thread::sleep(Duration::from_millis(2));
+            }
+        }
+    }
+}
+
 /// Runs the batch in child processes; a case that kills the child is reported as `Crash` and the
 /// rest of the batch continues in a new child.
 fn run_batch(cases: &[(String, Vec<u8>)]) -> Vec<LoadOutcome> {
@@ -1498,7 +1565,7 @@ fn run_batch(cases: &[(String, Vec<u8>)]) -> Vec<LoadOutcome> {
             input.push('\n');
         }
         let timeout = Duration::from_secs(20 + (cases.len() - start) as u64 / 40);
-        let ex = gv::child::run(&["--child", "load"], input.as_bytes(), timeout);
+        let ex = spawn_child(input.as_bytes(), timeout);
         let (stdout, how) = match &ex {
             gv::child::Exit::Ok(o) => (o.clone(), "ok".to_string()),
             gv::child::Exit::Code(c, o, e) => (o.clone(), format!("exit:{} {}", c, tail(e))),
@@ -1788,7 +1855,10 @@ fn judge_damaged(
     damaged: Vec<(String, Vec<u8>, serde_json::Value, &'static str, String, bool)>,
 ) {
     let cases: Vec<(String, Vec<u8>)> = damaged.iter().map(|d| (d.0.clone(), d.1.clone())).collect();
-    let res = run_batch(&cases);
+    let mut res = vec![];
+    for chunk in cases.chunks(1500) {
+        res.extend(run_batch(chunk));
+    }
     for (d, r) in damaged.iter().zip(res) {
         let (_, _, replay, kind, path, must_err) = d;
         if let (Some(w), Some(df)) = (replay.get("wanted").and_then(|x| x.as_array()), replay.get("defined").and_then(|x| x.as_array())) {
@@ -1950,10 +2020,10 @@ fn main() {
     // ---- stream A/B
     let mut rng = Rng::new(args.seed, 12);
     let mut damaged = vec![];
-    let n_plain = if thorough { 1500 } else { 220 };
-    let n_helper = if thorough { 300 } else { 50 };
-    let n_prelude = if thorough { 60 } else { 8 };
-    let (n_trunc, n_corrupt) = if thorough { (10, 16) } else { (6, 8) };
+    let n_plain = if thorough { 1000 } else { 220 };
+    let n_helper = if thorough { 200 } else { 50 };
+    let n_prelude = if thorough { 40 } else { 8 };
+    let (n_trunc, n_corrupt) = if thorough { (8, 12) } else { (6, 8) };
     // corpus: minimised past failures run first (file name suffix `_h` = helper module, `_p` = prelude)
     if let Ok(rd) = std::fs::read_dir("/verif/corpus/C12") {
         let mut files: Vec<_> = rd.filter_map(|e| e.ok()).map(|e| e.path()).filter(|p| p.extension().map_or(false, |x| x == "glu")).collect();
